@@ -1725,7 +1725,7 @@ def gen_conc(seed, n, start_id=0):
         if len(vs) >= 2 and h.base == vs[-1]:
             v = rng.choice(vs[:-1])
             nn = rng.choice([x for x in vs[:-1] if x >= v])
-            lines.append("pinprune %d %d %s" % (v, nn, rng.choice(["export:pinned", "export:pinned", "export:before-pin", "prune:checked", "double-close"])))
+            lines.append("pinprune %d %d %s" % (v, nn, rng.choice(["export:pinned", "export:pinned", "export:before-pin", "prune:checked", "double-close", "async-queued"])))
         if vs and h.base == vs[-1] and h.versions[vs[-1]] and rng.random() < 0.5:
             # a reader's storage read of an index entry that is not cached overlaps the commit that removes or
             # rewrites that key (fresh tree object: cold fast-node cache)
